@@ -63,7 +63,7 @@ def run(ctx: Ctx, driver: Driver):
         b = int.from_bytes(rb(32), "big")
         a_bytes = rb(16)
         ltsk_seed = rb(32)
-        acc = refacc.Identity(rb, acc_id=rng.choice([b"12:34:56:00:01:0A", b"AA:BB:CC:DD:EE:FF"]))
+        acc = refacc.Identity(rb, acc_id=rng.choice([b"12:34:56:00:01:0A", b"AA:BB:CC:DD:EE:FF", b"3c:5a:b4:00:1f:e2", b"aB:cd:EF:01:23:45"]))
         srv = refacc.SrpServer(pin if kind != "wrong-code-accessory" else "999-99-999", salt, b)
         with mock.patch.object(srpmod.os, "urandom", lambda n: a_bytes), \
                 mock.patch.object(P.ed25519.Ed25519PrivateKey, "generate", staticmethod(lambda: ed25519.Ed25519PrivateKey.from_private_bytes(ltsk_seed))):
